@@ -9,6 +9,15 @@ ROOT = pathlib.Path(__file__).resolve().parent.parent
 
 # id -> (technique, level text, level_note, design_ref)
 CHECKS = {
+    "C04": (
+        "history + executable model: lock-step sequential port-multigraph model over bounded-exhaustive and random call histories; structural invariant hook at every step",
+        "Every step of every history (all 87k histories of length <= 3 over a 44-step alphabet in quick, length <= 4 in thorough; thousands of "
+        "random collision-heavy histories with fan-outs, parallel links, order links, leaf deletions, index reuse and insert_hugr) is applied "
+        "to the real Hugr and to an 80-line model; after each step every public query (iteration, lookup, parent/children, links(), linked_ports "
+        "from both ends, link and order-link listings, port counts, handle stability) is compared and the internal shape invariant is walked.",
+        "Trusted: vf/oracles/store.py model. Non-leaf deletion, empty per-port listing entries, num_incoming/num_outgoing and link order are outside the comparison.",
+        "DESIGN.md §3 C04",
+    ),
     "C01": (
         "reference-model monitor on outputs: generated well-formed builder programs (and the repo's own builder tests via a HUGR_BIN shim) are run against the real builders and every serialized HUGR is checked by an independent JSON-level re-implementation of the validator rules",
         "1500 (quick) / 40000 (thorough) type-directed, linearity-respecting builder programs over all six root kinds, nested to depth 3/5, "
